@@ -3,6 +3,7 @@ use crate::core::Ctx;
 pub mod c01;
 pub mod c02;
 pub mod c03;
+pub mod c04;
 pub mod c05;
 pub mod c06;
 pub mod c07;
@@ -25,6 +26,7 @@ pub fn lookup(prop: &str) -> Option<fn(&Ctx)> {
         "C01" => c01::run,
         "C02" => c02::run,
         "C03" => c03::run,
+        "C04" => c04::run,
         "C05" => c05::run,
         "C06" => c06::run,
         "C07" => c07::run,
